@@ -1220,7 +1220,9 @@ class NLDFSettingsVI(NLDFSettings):
         ) in self.l1_feat_dots:
             spec1 = "grad_rho" if j == -1 else self.l1_feat_specs[j]
             spec2 = "grad_rho" if k == -1 else self.l1_feat_specs[k]
-            usps.append(usp0 + SPEC_USPS[spec1] + SPEC_USPS[spec2])
+            # each nonlocal vector integral in the dot product carries rho_mult
+            nmul = (j != -1) + (k != -1)
+            usps.append(nmul * usp0 + SPEC_USPS[spec1] + SPEC_USPS[spec2])
         return usps
 
     def ueg_vector(self, rho=1.0):
@@ -1508,7 +1510,9 @@ class NLDFSettingsVIJ(NLDFSettings):
         ) in self.l1_feat_dots:
             spec1 = "grad_rho" if j == -1 else self.l1_feat_specs[j]
             spec2 = "grad_rho" if k == -1 else self.l1_feat_specs[k]
-            usps.append(usp0 + SPEC_USPS[spec1] + SPEC_USPS[spec2])
+            # each nonlocal vector integral in the dot product carries rho_mult
+            nmul = (j != -1) + (k != -1)
+            usps.append(nmul * usp0 + SPEC_USPS[spec1] + SPEC_USPS[spec2])
         return usps
 
     def ueg_vector(self, rho=1.0):
